@@ -134,6 +134,7 @@ def run(ctx):
             b = base_scen(random.Random(1), 900, 'fork')
             b['calls'][0]['params']['progress_bar'] = True
             b['pool'].pop('keep_alive', None)
+            b['budget'] = 15
             scens.insert(0, with_sigint(b, {'mode': 'line', 'at': at, 'hit': 1}, '@known'))
     recs = runner.run_many(scens, 'c17', jobs=10)
     bad, hangs = analyse(recs)
@@ -148,10 +149,16 @@ def run(ctx):
         if b2 or h2:
             out_v.append(dict(found_input=True, what=msg, signature='C17:' + sig,
                               replay=dict(kind='scenario', scenario=rec['scenario'], got=msg)))
-    for rec in hangs[:6]:
-        again = runner.run_many([rec['scenario']], 'c17_re', jobs=1)
+    known_sigs = {f['signature'] for f in known_findings() if f.get('property') == 'C17' and f.get('status') == 'open'}
+    reported = set()
+    for rec in hangs[:12]:
+        sig = 'hang:' + (rec['scenario']['sig'].get('at') or 'time')
+        if sig in reported:
+            continue
+        reported.add(sig)
+        # a listed finding is not run a second time (each run waits for the watchdog)
+        again = [rec] if 'C17:' + sig in known_sigs else runner.run_many([rec['scenario']], 'c17_re', jobs=1)
         if again[0]['status'] != 'done':
-            sig = 'hang:' + (rec['scenario']['sig'].get('at') or 'time')
             out_v.append(dict(found_input=True, what=f"SIGINT {rec['scenario']['sig']}: the call did not finish ({rec['status']})", signature='C17:' + sig,
                               replay=dict(kind='scenario', scenario=rec['scenario'], got=rec['status'], stacks=rec['stacks'][-3000:])))
     outcomes = {}
